@@ -251,6 +251,17 @@ std::vector<std::pair<uint64_t, std::string>> tables_range_hashes() {
   }
   return v;
 }
+static std::vector<std::pair<uint64_t, std::string>> g_tab_pristine;
+static uint64_t g_tab_pristine_all = 0;
+bool g_table_store_seen = false;
+char g_table_store_site[96], g_table_store_where[128];
+std::string tables_first_diff(const std::vector<std::pair<uint64_t, std::string>>& ref);
+void tables_snapshot() { g_tab_pristine = tables_range_hashes(); g_tab_pristine_all = tables_hash(); }
+bool tables_changed(std::string* which) {
+  if (tables_hash() == g_tab_pristine_all) return false;
+  if (which) *which = tables_first_diff(g_tab_pristine);
+  return true;
+}
 std::string tables_first_diff(const std::vector<std::pair<uint64_t, std::string>>& ref) {
   for (size_t i = 0; i < g_tabranges.size() && i < ref.size(); i++)
     if (range_hash(g_tabranges[i].first, g_tabranges[i].second) != ref[i].first) return ref[i].second;
